@@ -97,13 +97,24 @@ def gen_cases(chk):
             msg = rng.randbytes(n)
             for c in range(0, n + 1):
                 U(alg, msg, [c, n - c], "all-2-splits")
-        # all 3-splits of short messages and of messages around one block
-        lens3 = list(range(0, 20 if not thorough else 40)) + ([B - 1, B, B + 1] if not thorough else list(range(B - 9, B + 10)) + [2 * B - 1, 2 * B, 2 * B + 1])
-        for n in lens3:
+        # all 3-splits of short messages; around one / two blocks every pair of cuts taken from the boundary marks
+        for n in range(0, 13 if not thorough else 40):
             msg = rng.randbytes(n)
             for a in range(0, n + 1):
                 for b in range(a, n + 1):
                     U(alg, msg, [a, b - a, n - b], "all-3-splits")
+        for n in ([B - 1, B, B + 1, 2 * B, 2 * B + 1] if not thorough else list(range(B - 9, B + 10)) + list(range(2 * B - 9, 2 * B + 10))):
+            msg = rng.randbytes(n)
+            marks = sorted({m for m in (0, 1, B - 9, B - 8, B - 1, B, B + 1, 2 * B - 9, 2 * B - 8, 2 * B - 1, 2 * B, n - 1, n) if 0 <= m <= n})
+            for ia, a in enumerate(marks):
+                for b in marks[ia:]:
+                    U(alg, msg, [a, b - a, n - b], "boundary-3-splits")
+        if thorough:
+            for n in (B - 1, B, B + 1):
+                msg = rng.randbytes(n)
+                for a in range(0, n + 1):
+                    for b in range(a, n + 1):
+                        U(alg, msg, [a, b - a, n - b], "all-3-splits")
         # boundary lengths: cuts at and around every block / padding boundary, random k-splits with empties
         for n in BOUNDARY + [2 * B + B // 2, 3 * B, 3 * B + 1, 5 * B - 9, 5 * B - 8]:
             msg = rng.randbytes(n)
@@ -146,7 +157,23 @@ DRIVER = os.path.join(vlib.ROOT, "harness", "c", "c17_driver.c")
 
 
 def build_exe():
-    return vlib.build_c_driver("c17", [DRIVER])
+    """Build the driver and run from a private copy: another check running concurrently on a different
+    tree replaces build/drv (vlib.build_impl drops older builds)."""
+    import shutil
+    import time
+    d = os.path.join(vlib.BUILD, "c17-run")
+    os.makedirs(d, exist_ok=True)
+    last = None
+    for _ in range(5):
+        try:
+            exe = vlib.build_c_driver("c17", [DRIVER])
+            dst = os.path.join(d, "%s-%d" % (os.path.basename(exe), os.getpid()))
+            shutil.copy2(exe, dst)
+            return dst
+        except (FileNotFoundError, OSError) as e:
+            last = e
+            time.sleep(1)
+    raise vlib.BuildError("driver c17 vanished while building: %s" % last)
 
 
 def nontrivial_key(line):
@@ -210,6 +237,10 @@ def run(chk):
         if o != e:
             chk.fail(l, "implementation returned %r, the standard demands %r" % (o, e))
     chk.extra["long_stream_MiB"] = mib
+    try:
+        os.remove(exe)
+    except OSError:
+        pass
 
 
 def load_corpus():
